@@ -863,6 +863,28 @@ pub fn run_c13(ctx: &mut Ctx, shard: usize, nshards: usize) {
         bases.push(Cfg::Fb { kind: FbKind::Payload, sender: 1, media: 2, fci: Fci::Fir((0..(words / 2) as u32).map(|i| (i, 1)).collect()), padding: 0 });
         bases.push(Cfg::Fb { kind: FbKind::Payload, sender: 1, media: 2, fci: Fci::Rpsi { pt: 1, bits: vec![0xcc; 4 * words - 2], overrun: 0 }, padding: 0 });
     }
+    // sender / receiver reports that carry a profile-specific extension (RFC 3550 6.4.1): raw images
+    {
+        let mut k = 0usize;
+        for nb in [0usize, 1, 2, 10] {
+            for words in [1usize, 2, 6] {
+                for sr in [true, false] {
+                    let blocks: Vec<Rb> = (0..nb).map(|k| Rb { ssrc: k as u32 + 1, fraction: 1, cumulative: 2, ext_seq: 3, jitter: 4, lsr: 5, dlsr: 6 }).collect();
+                    let c = if sr { Cfg::Sr { ssrc: 3, ntp: 4, rtp: 5, pc: 6, oc: 7, blocks, padding: 0 } } else { Cfg::Rr { ssrc: 3, blocks, padding: 0 } };
+                    let Some(mut b) = enc::enc(&c) else { continue };
+                    b.extend((0..4 * words).map(|i| 0x40 + i as u8));
+                    gb::fix_len(&mut b);
+                    for p in [4u8, 8, 24, 48, 252] {
+                        k += 1;
+                        if k % nshards == shard && (ctx.scale >= 0.5 || k % 13 == 0) {
+                            check_c13(ctx, &b, p);
+                            ctx.class("c13:report-with-profile-extension");
+                        }
+                    }
+                }
+            }
+        }
+    }
     // images beyond 65 535 bytes (the offset of the padding count no longer fits 16 bits): three paddings each
     if ctx.scale >= 0.5 {
         for (k, mut c) in crate::mon::writers::large_cfgs().into_iter().enumerate() {
